@@ -1,5 +1,6 @@
 import AtreeProofs.Trans.Storage
 import AtreeProofs.StorageLemmas2
+import AtreeModel.StorageOps
 import AtreeProofs.OrderLemmas
 /-
   C15 / C03 / C08 / C14: the SEQUENTIAL part of `PersistentSlabStorage` (storage.go), REGENERATED from the Go
@@ -456,6 +457,16 @@ theorem St_commit_eq_commitKeys (s : GSt σ β) (keys : List SlabID)
   have h := St_commit_eq_model c fault sz j s keys
   simpa [St.commitKeys, res0, h0, hl] using h
 
+/-- the sequential path of `NondeterministicFastCommit` (fewer than two modified owned slabs): it calls
+    `commit(modified ++ deleted)`, which is the model's `nondetCommit` on those orders -/
+theorem St_commit_eq_nondetCommit_small (s : GSt σ β) (mo dlo : List SlabID) (hm : mo.length < 2)
+    (h0 : s.baseStorage.n = 0) (hl : s.baseStorage.log = []) :
+    let r := (abs s).nondetCommit c fault mo dlo
+    (PersistentSlabStorage_commit (envM c fault sz j) s (mo ++ dlo)).2 = conc r.st r.n r.log ∧
+    (PersistentSlabStorage_commit (envM c fault sz j) s (mo ++ dlo)).1.bind GErr.cls = r.err := by
+  have h := St_commit_eq_commitKeys c fault sz j s (mo ++ dlo) h0 hl
+  simpa [St.nondetCommit, hm] using h
+
 /-! ### The representation invariant of the maps (distinct keys) is preserved - by every environment -/
 
 section wf
@@ -655,6 +666,147 @@ theorem St_sortedOwnedDeltaKeys_order_insensitive (s s' : PersistentSlabStorage 
 
 end order
 
+/-! ### The model's step function (`St.step`, what the C15 theorems and the trace replay are about) on the generated code -/
+
+section step
+
+/-- what the trace shows of a Go error value -/
+def obsOfErr {σ : Type} (e : Option GErr) : Obs σ :=
+  match e with
+  | none => .unit
+  | some g => match g.cls with
+    | some x => .err x
+    | none => .unit
+
+/-- one request served by the GENERATED functions (the requests whose Go function is translated and sequential) -/
+def gstep (s : GSt σ β) : Op σ → Option (GSt σ β × Obs σ)
+  | .store id v =>
+    let r := PersistentSlabStorage_Store (envM c fault sz j) s id (some v)
+    some (r.2, obsOfErr r.1)
+  | .remove id =>
+    let r := PersistentSlabStorage_Remove (envM c fault sz j) s id
+    some (r.2, obsOfErr r.1)
+  | .retrieve id =>
+    let r := PersistentSlabStorage_Retrieve (envM c fault sz j) s id
+    some (r.2, match r.1.2.2 with | none => .slab r.1.1 | some e => obsOfErr (some e))
+  | .retrieveIfLoaded id => some (s, .slab (PersistentSlabStorage_RetrieveIfLoaded (envM c fault sz j) s id))
+  | .retrieveIgnoringDeltas id ch =>
+    let r := PersistentSlabStorage_RetrieveIgnoringDeltas (envM c fault sz j) s id ch
+    some (r.2, match r.1.2.2 with | none => .slab r.1.1 | some e => obsOfErr (some e))
+  | .dropDeltas => some (PersistentSlabStorage_DropDeltas (envM c fault sz j) s, .unit)
+  | .dropCache => some (PersistentSlabStorage_DropCache (envM c fault sz j) s, .unit)
+  | .genID a =>
+    let r := PersistentSlabStorage_GenerateSlabID (envM c fault sz j) s a
+    some (r.2, match r.1.2 with | none => .id r.1.1 | some e => obsOfErr (some e))
+  | _ => none
+
+theorem abs_conc_of (s : GSt σ β) (m : St σ β) (n : Nat) (log : List (St.BaseCall β))
+    (h : m.tempIx = s.tempSlabIndex.toNat) : abs (conc m n log) = m :=
+  abs_conc m n log (by rw [h]; exact s.tempSlabIndex.toNat_lt)
+
+/-- `St.step` on the model state of `s` is what the generated functions do to `s` and return: for store, remove,
+    retrieve, retrieve-if-loaded, cache-bypassing retrieve, drop-deltas, drop-cache and generate-id (the latter
+    unless the 64-bit temporary counter wraps).  So every theorem about `St.step` / `St.run` histories of these
+    requests is a theorem about the regenerated code. -/
+theorem St_step_eq_generated (s s' : GSt σ β) (op : Op σ) (o : Obs σ)
+    (hg : ∀ a, op = .genID a → a = 0 → s.tempSlabIndex.toNat + 1 < 2 ^ 64)
+    (h : gstep c fault sz j s op = some (s', o)) :
+    St.step c (abs s) op = (abs s', o) := by
+  cases op with
+  | store id v =>
+    simp only [gstep, Option.some.injEq, Prod.mk.injEq] at h
+    obtain ⟨h1, h2⟩ := h
+    subst h1 h2
+    rw [St_store_eq_model]
+    simp only [St.step]
+    cases hm : (abs s).store id v with
+    | ok m' =>
+      have : m'.tempIx = s.tempSlabIndex.toNat := by
+        unfold St.store at hm; split at hm <;> simp at hm; rw [← hm]; rfl
+      simp [obsOfErr, abs_conc_of s m' _ _ this]
+    | error e => simp [obsOfErr, GErr.cls_ofSt]
+  | remove id =>
+    simp only [gstep, Option.some.injEq, Prod.mk.injEq] at h
+    obtain ⟨h1, h2⟩ := h
+    subst h1 h2
+    rw [St_remove_eq_model]
+    simp only [St.step]
+    cases hm : (abs s).remove id with
+    | ok m' =>
+      have : m'.tempIx = s.tempSlabIndex.toNat := by
+        unfold St.remove at hm; split at hm <;> simp at hm; rw [← hm]; rfl
+      simp [obsOfErr, abs_conc_of s m' _ _ this]
+    | error e => simp [obsOfErr, GErr.cls_ofSt]
+  | retrieve id =>
+    simp only [gstep, Option.some.injEq, Prod.mk.injEq] at h
+    obtain ⟨h1, h2⟩ := h
+    subst h1 h2
+    rw [St_retrieve_eq_model]
+    simp only [St.step]
+    cases hm : (abs s).retrieve c id with
+    | ok r =>
+      obtain ⟨v, m'⟩ := r
+      have : m'.tempIx = s.tempSlabIndex.toNat := by
+        unfold St.retrieve St.retrieveIgnoringDeltas at hm
+        repeat' split at hm
+        all_goals simp at hm
+        all_goals (try (rw [← hm.2]; rfl))
+      simp [abs_conc_of s m' _ _ this]
+    | error e => simp [obsOfErr, GErr.cls_ofSt]
+  | retrieveIfLoaded id =>
+    simp only [gstep, Option.some.injEq, Prod.mk.injEq] at h
+    obtain ⟨h1, h2⟩ := h
+    subst h1 h2
+    simp [St.step, St_retrieveIfLoaded_eq_model]
+  | retrieveIgnoringDeltas id ch =>
+    simp only [gstep, Option.some.injEq, Prod.mk.injEq] at h
+    obtain ⟨h1, h2⟩ := h
+    subst h1 h2
+    rw [St_retrieveIgnoringDeltas_eq_model]
+    simp only [St.step]
+    cases hm : (abs s).retrieveIgnoringDeltas c id ch with
+    | ok r =>
+      obtain ⟨v, m'⟩ := r
+      have : m'.tempIx = s.tempSlabIndex.toNat := by
+        unfold St.retrieveIgnoringDeltas at hm
+        repeat' split at hm
+        all_goals simp at hm
+        all_goals (try (rw [← hm.2]; rfl))
+      simp [abs_conc_of s m' _ _ this]
+    | error e => simp [obsOfErr, GErr.cls_ofSt]
+  | dropDeltas =>
+    simp only [gstep, Option.some.injEq, Prod.mk.injEq] at h
+    obtain ⟨h1, h2⟩ := h
+    subst h1 h2
+    rw [St_dropDeltas_eq_model]
+    simp [St.step, abs_conc_of s (abs s).dropDeltas _ _ rfl]
+  | dropCache =>
+    simp only [gstep, Option.some.injEq, Prod.mk.injEq] at h
+    obtain ⟨h1, h2⟩ := h
+    subst h1 h2
+    rw [St_dropCache_eq_model]
+    simp [St.step, abs_conc_of s (abs s).dropCache _ _ rfl]
+  | genID a =>
+    simp only [gstep, Option.some.injEq, Prod.mk.injEq] at h
+    obtain ⟨h1, h2⟩ := h
+    subst h1 h2
+    have hw := hg a rfl
+    rw [St_generateSlabID_eq_model c fault sz j s a hw]
+    simp only [St.step]
+    have : abs (conc ((abs s).generateSlabID a).2 s.baseStorage.n s.baseStorage.log) = ((abs s).generateSlabID a).2 := by
+      apply abs_conc
+      unfold St.generateSlabID
+      by_cases ha : a = 0
+      · simpa [ha, abs] using hw ha
+      · simp only [ha, ↓reduceIte, abs]
+        exact s.tempSlabIndex.toNat_lt
+    simp [this]
+  | commit _ _ _ _ => simp [gstep] at h
+  | preload _ => simp [gstep] at h
+  | recreate => simp [gstep] at h
+
+end step
+
 /-! ### Non-vacuity: the generated functions on a concrete storage -/
 
 section example_
@@ -685,6 +837,9 @@ example : (PersistentSlabStorage_commit (exEnv [1]) exS [⟨1, 1⟩, ⟨1, 3⟩]
 example : (PersistentSlabStorage_commit (exEnv [1]) exS [⟨1, 1⟩, ⟨1, 3⟩]).2.deltas = [(⟨1, 3⟩, some 30), (⟨0, 1⟩, some 40)] := by decide
 example : (PersistentSlabStorage_commit (exEnv [1]) exS [⟨1, 1⟩, ⟨1, 3⟩]).2.baseStorage.regs = [(⟨1, 2⟩, 99)] := by decide
 example : (PersistentSlabStorage_commit (exEnv []) exS [⟨1, 1⟩, ⟨1, 3⟩]).2.baseStorage.regs = [(⟨1, 3⟩, 130), (⟨1, 2⟩, 99)] := by decide
+-- `gstep` serves the request (hypothesis of `St_step_eq_generated`), here the read of the undecodable register
+example : ∃ s' o, gstep exCodec (St.faultPlan []) (fun v => UInt32.ofNat v) exJunk exS (.retrieve ⟨1, 2⟩) = some (s', o) :=
+  ⟨_, _, rfl⟩
 end example_
 
 end Atree.TransEq
